@@ -222,8 +222,45 @@ def _cached(key, fn):
     return hit
 
 
-def instantiate(formulas, rounds: int = 2, heavy: bool = True):
+_QUANT = None
+QUANT_THRESHOLD = 10**9   # auto mode disabled: opt in per contract with options={'quant': True}
+
+
+def quantified_pairwise():
+    """
+    The pairwise schemas (PP.mono, PP.strict, BB.mono, S7, S7b, S4, S4b) as quantified axioms with
+    multi-patterns: the solver instantiates them by E-matching on the pow2/bl terms it has, instead of
+    pyvc generating every pair up front (quadratic).  Same theorems (lean/FpyLemmas.lean), only the
+    instantiation strategy differs; used when PYVC_QUANT=1.
+    """
+    global _QUANT
+    if _QUANT is None:
+        a, b = z3.Ints('q!a q!b')
+        mp = z3.MultiPattern
+        _QUANT = [
+            z3.ForAll([a, b], z3.Implies(z3.And(a >= 0, a <= b), pow2(a) <= pow2(b)), patterns=[mp(pow2(a), pow2(b))]),
+            z3.ForAll([a, b], z3.Implies(z3.And(a >= 0, a < b), 2 * pow2(a) <= pow2(b)), patterns=[mp(pow2(a), pow2(b))]),
+            z3.ForAll([a, b], z3.Implies(z3.And(a >= 0, a <= b), bl(a) <= bl(b)), patterns=[mp(bl(a), bl(b))]),
+            z3.ForAll([a, b], z3.Implies(z3.And(a >= 0, b == a + 1, bl(b) > bl(a)), b == pow2(bl(a))), patterns=[mp(bl(a), bl(b))]),
+            z3.ForAll([a, b], z3.Implies(z3.And(a >= 0, b == a + 1), bl(b) <= bl(a) + 1), patterns=[mp(bl(a), bl(b))]),
+            z3.ForAll([a, b], z3.Implies(z3.And(a >= 0, b >= 0), (bl(a) <= b) == (a < pow2(b))), patterns=[mp(bl(a), pow2(b))]),
+            z3.ForAll([a, b], z3.Implies(z3.And(b >= 0, a == pow2(b)), bl(a) == b + 1), patterns=[mp(bl(a), pow2(b))]),
+        ]
+    return _QUANT
+
+
+def instantiate(formulas, rounds: int = 2, heavy: bool = True, quant=None):
     """Ground axiom instances for the pow2/bl terms occurring in `formulas` (cached per term)."""
+    import os as _os
+    if quant is None:
+        qenv = _os.environ.get('PYVC_QUANT', 'auto')
+        if qenv in ('0', '1'):
+            quant = qenv == '1'
+        else:
+            # many pow2/bl terms (thin wrappers over big callee contracts): pairwise ground instantiation is
+            # quadratic and dominates; hand the pairwise schemas to the solver's E-matching instead
+            p2_, bls_, _d, _i = collect(list(formulas))
+            quant = len(p2_) + len(bls_) > QUANT_THRESHOLD
     axioms = []
     names = []
     done = set()
@@ -249,20 +286,27 @@ def instantiate(formulas, rounds: int = 2, heavy: bool = True):
                 continue
             emit(('b', i, last), lambda c=c: _ax_bl(c, last))
         p2l = sorted(p2.items())
-        for x in range(len(p2l)):
-            for y in range(x + 1, len(p2l)):
-                (i, a), (j, b) = p2l[x], p2l[y]
-                if ('pp', i, j, False, heavy) in done:
-                    continue
-                emit(('pp', i, j, last, heavy), lambda a=a, b=b: _ax_pp(a, b, last, heavy))
         bll = sorted(bls.items())
-        for x in range(len(bll)):
-            for y in range(x + 1, len(bll)):
-                (i, a), (j, b) = bll[x], bll[y]
-                emit(('bb', i, j), lambda a=a, b=b: _ax_bb(a, b))
-        for (i, x) in bll:
-            for (j, k) in p2l:
-                emit(('bp', i, j), lambda x=x, k=k: _ax_bp(x, k))
+        if quant:
+            if heavy and not last:
+                for x in range(len(p2l)):
+                    for y in range(x + 1, len(p2l)):
+                        (i, a), (j, b) = p2l[x], p2l[y]
+                        emit(('pps', i, j), lambda a=a, b=b: [t for t in _ax_pp(a, b, False, True) if t[0] == 'PP.split'])
+        else:
+            for x in range(len(p2l)):
+                for y in range(x + 1, len(p2l)):
+                    (i, a), (j, b) = p2l[x], p2l[y]
+                    if ('pp', i, j, False, heavy) in done:
+                        continue
+                    emit(('pp', i, j, last, heavy), lambda a=a, b=b: _ax_pp(a, b, last, heavy))
+            for x in range(len(bll)):
+                for y in range(x + 1, len(bll)):
+                    (i, a), (j, b) = bll[x], bll[y]
+                    emit(('bb', i, j), lambda a=a, b=b: _ax_bb(a, b))
+            for (i, x) in bll:
+                for (j, k) in p2l:
+                    emit(('bp', i, j), lambda x=x, k=k: _ax_bp(x, k))
         for i, t in sorted(dms.items()):
             if ('dm', i, False, heavy) in done:
                 continue
@@ -284,6 +328,9 @@ def instantiate(formulas, rounds: int = 2, heavy: bool = True):
             for f_ in work + axioms:
                 for i, t in _MULS.get(f_.get_id(), {}).items():
                     emit(('mul', i), lambda t=t: _ax_mul(t))
+    if quant:
+        axioms = axioms + quantified_pairwise()
+        names = names + ['Q'] * len(quantified_pairwise())
     return axioms, names
 
 
